@@ -70,6 +70,13 @@ def generate(seed: int, tier: str = "quick") -> dict:
     tr = common.draw_transport(r_sch, wire_len, spans, kinds=("file", "file", "socket"))
     if tr["kind"] == "socket":
         cfg["bufsize"] = r_sch.choice(sched.BUFSIZES)
+    cfg["handler_kind"] = r_cfg.choice(("function", "function", "method", "falsy_callable"))
+    if r_cfg.random() < 0.5:
+        # another reader with another policy / handler is alive while this one is read
+        cfg["decoy"] = True
+        cfg["decoy_policy"] = r_cfg.choice((0, 1, 1, 2))
+        cfg["decoy_protfilter"] = r_cfg.choice((7, 1, 2, 4))
+        cfg["decoy_msgmode"] = r_cfg.choice((0, 1, 2, 3))
     return {"seed": seed, "config": cfg, "frames": frames, "transport": tr, "constructive": constructive, "pre_faults": dict(pre)}
 
 
@@ -135,6 +142,9 @@ def _run(scn, res=None):
             c.hit("errtype:" + e[1].split(".")[-1])
         c.hit("logger_records", len(cap.records))
         c.hit(tr["kind"] + "_runs")
+        c.hit("handler_kind_" + str(cfg0.get("handler_kind")))
+        if cfg0.get("decoy"):
+            c.hit("decoy_reader_alive")
         res.log((wire, sorted(cfg0.items()), log.events), bool(errors) and bool(log.items))
     # ---- relational clauses
     for name, out in (("ERR_IGNORE", ign), ("ERR_LOG without handler", nohand)):
@@ -150,6 +160,9 @@ def _run(scn, res=None):
             return ("policy_changes_delivered_items", f"{name} delivered {len(out.items)} items, ERR_LOG+handler {len(log.items)}: {[r.hex()[:40] for r, _ in out.items][:5]} vs {[r.hex()[:40] for r, _ in log.items][:5]}")
     if log.handler_bad:
         return ("handler_called_with_non_exception", log.handler_bad[0])
+    for name, out in (("ERR_LOG", log), ("ERR_IGNORE", ign), ("ERR_LOG without handler", nohand), ("ERR_RAISE", rai)):
+        if out.decoy_calls:
+            return ("error_reported_to_another_readers_handler", f"{name}: {out.decoy_calls} call(s) reached the handler of a different live reader")
     if any(e[0] == "E" for e in ign.events):
         return ("handler_called_under_err_ignore", str(ign.events[:4]))
     if rai.hang:
